@@ -337,6 +337,7 @@ def c11_case(text, opts, cmds):
 def check_c11(seed, n):
     rng = random.Random(seed)
     violations, evals, dist = [], 0, {"cmds": 0, "with_calls": 0, "options": 0}
+    seen = set()
     for k in range(n):
         text = gen_program(rng, seed * 7919 + k)
         opts = options(rng)
@@ -345,13 +346,15 @@ def check_c11(seed, n):
         if r == "skip":
             continue
         evals += 1
+        if cmds:
+            seen.add((text, repr(opts), tuple(cmds)))
         dist["cmds"] += len(cmds)
         dist["with_calls"] += "CALL" in text
         dist["options"] += bool(opts)
         if r:
             violations.append({"property": "C11", "stream": "c11", "sig": "c11:" + r.split(":")[0][:40],
                                "case": {"text": text, "opts": opts, "cmds": cmds}, "what": r})
-    return {"evaluations": evals, "violations": violations, "disagreements": [], "distribution": dist}
+    return {"evaluations": evals, "violations": violations, "disagreements": [], "distribution": dist, "distinct": len(seen)}
 
 
 # ---------------------------------------------------------------------------------------------------------
@@ -463,6 +466,7 @@ def c12_case(text, opts, cmds):
 def check_c12(seed, n):
     rng = random.Random(seed)
     violations, evals, dist = [], 0, {"programs": 0, "commands": 0}
+    seen = set()
     for k in range(n):
         text = gen_program(rng, seed * 6007 + k)
         opts = options(rng) if rng.random() < 0.3 else {}
@@ -474,12 +478,13 @@ def check_c12(seed, n):
         if r == "skip":
             continue
         evals += done
+        seen.update((text, repr(opts), tuple(cmds[:i + 1])) for i in range(done))
         dist["programs"] += 1
         dist["commands"] += done
         if r:
             violations.append({"property": "C12", "stream": "c12", "sig": "c12:" + re.sub(r"[0-9]+", "N", r)[:50],
                                "case": {"text": text, "opts": opts, "cmds": cmds}, "what": r})
-    return {"evaluations": evals, "violations": violations, "disagreements": [], "distribution": dist}
+    return {"evaluations": evals, "violations": violations, "disagreements": [], "distribution": dist, "distinct": len(seen)}
 
 
 # ---------------------------------------------------------------------------------------------------------
@@ -594,6 +599,7 @@ def c13_case(text, opts, cmds):
 def check_c13(seed, n):
     rng = random.Random(seed)
     violations, evals, dist = [], 0, {"programs": 0, "commands": 0}
+    seen = set()
     for k in range(n):
         text = gen_program(rng, seed * 5003 + k)
         opts = options(rng) if rng.random() < 0.4 else {}
@@ -605,12 +611,13 @@ def check_c13(seed, n):
         if r == "skip":
             continue
         evals += done
+        seen.update((text, repr(opts), tuple(cmds[:i + 1])) for i in range(done))
         dist["programs"] += 1
         dist["commands"] += done
         if r:
             violations.append({"property": "C13", "stream": "c13", "sig": "c13:" + re.sub(r"[0-9]+", "N", r)[:60],
                                "case": {"text": text, "opts": opts, "cmds": cmds}, "what": r})
-    return {"evaluations": evals, "violations": violations, "disagreements": [], "distribution": dist}
+    return {"evaluations": evals, "violations": violations, "disagreements": [], "distribution": dist, "distinct": len(seen)}
 
 
 # ---------------------------------------------------------------------------------------------------------
@@ -755,7 +762,9 @@ def check_model(seed, n):
             disagreements.append({"stream": "dbgmodel", "case": case, "at": i,
                                   "model": (got[i] if i < len(got) else "<missing>")[:600],
                                   "impl": (real[i] if i < len(real) else "<missing>")[:600]})
-    return {"evaluations": evals, "violations": [], "disagreements": disagreements, "distribution": {"sessions": len(cases)}}
+    distinct = len({(c["text"], repr(c["opts"]), tuple(c["cmds"][:i + 1])) for c, real in zip(cases, reals) for i in range(len(real) - 1)})
+    return {"evaluations": evals, "violations": [], "disagreements": disagreements, "distribution": {"sessions": len(cases)},
+            "distinct": distinct}
 
 
 # ---------------------------------------------------------------------------------------------------------
@@ -793,4 +802,4 @@ def check_shape(seed, n):
         if r:
             violations.append({"property": "C11", "stream": "shape", "sig": "shape", "case": {"text": text, "opts": {}},
                                "what": "hypothesis of C11 fails on a real program: " + r})
-    return {"evaluations": evals, "violations": violations, "disagreements": [], "distribution": {}}
+    return {"evaluations": evals, "violations": violations, "disagreements": [], "distribution": {}, "distinct": 0}
